@@ -32,6 +32,18 @@ Theorem C12_refines : forall loadable raw n d cmds,
 Proof. exact refines. Qed.
 Print Assumptions C12_refines.
 
+(* With the repair proposed for finding K11 (repo_patches/F9-empty-cnf-clause-cache.patch: the
+   clause cache exists for every CNF input) the same holds without "stored set not empty". *)
+Theorem C12_refines_k11_repaired : forall loadable raw n d cmds,
+  nzs raw -> (exists s0 : asg, cs_sat s0 raw = true) ->
+  load_cnf_with true loadable raw n = Some d ->
+  let m0 := m_init (stored_set raw) n in
+  let '(d', ans) := cc_run false loadable d cmds in
+  answers_ok loadable m0 cmds ans /\
+  (~ In APanic ans -> R loadable d' (m_run m0 cmds)).
+Proof. exact refines_k11_repaired. Qed.
+Print Assumptions C12_refines_k11_repaired.
+
 (* What the coupling means: the stored clause set IS the machine's set (in BTreeSet order), the
    stored total is the machine's n, the live model was compiled from a CNF with exactly the
    models of the machine's current clause set over the machine's n, old_state (if the machine
